@@ -846,6 +846,9 @@ void File::uncompressedFileReadThread(File * file) {
         file->m_readWriteQueue.setFileSize(file->m_readWriteQueue.tellp());
     } catch (...) {
         file->m_uncompressedFileThreadException = std::current_exception();
+
+        /* set end of file, so that the consumer is not left waiting */
+        file->m_readWriteQueue.setFileSize(file->m_readWriteQueue.tellp());
     }
 }
 
@@ -886,6 +889,9 @@ void File::compressedFileReadThread(File * file) {
         file->m_uncompressedFile.setFileSize(file->m_uncompressedFile.tellp());
     } catch (...) {
         file->m_compressedFileThreadException = std::current_exception();
+
+        /* set end of file, so that the consumer is not left waiting */
+        file->m_uncompressedFile.setFileSize(file->m_uncompressedFile.tellp());
     }
 }
 
